@@ -475,6 +475,11 @@ func lineKey(l string) string {
 
 func (d *Device) asaAddLine(line string) string {
 	w := strings.Fields(line)
+	if line == "sysopt connection permit-vpn" {
+		// Default setting: removes the negated form.
+		d.removeLines(func(x string) bool { return x == "no sysopt connection permit-vpn" })
+		return "accepted"
+	}
 	// Strip metric of routes.
 	if w[0] == "route" && len(w) == 6 {
 		line = strings.Join(w[:5], " ")
